@@ -1,7 +1,7 @@
 """Implementation side of C18.  stdin: one JSON case per line; stdout: one JSON result per line.
 
 unit case : {"mode":"unit","items":[[path_id,size,atime],...],"bl":int|str|null,"il":int|null,"al":int|null,"now":int}
-e2e case  : {"mode":"e2e","entries":[[arg,payload_len,atime],...],"bl":...,"il":...,"al":...,"now":int}
+e2e case  : {"mode":"e2e","entries":[[arg,payload_len,atime],...],"orphans":[["empty"|"meta",atime],...],"bl":...,"il":...,"al":...,"now":int}
 """
 import datetime as real_datetime
 import json
@@ -81,20 +81,44 @@ def run_e2e(c):
             ts = (BASE + real_datetime.timedelta(seconds=t)).timestamp()
             os.utime(os.path.join(path, "output.pkl"), (ts, ts))
             infos[path] = arg
+        # entry directories WITHOUT output.pkl (a result that could not be pickled leaves metadata.json only; a crash
+        # after create_location leaves an empty directory): they are entries of the store too
+        func_dir = os.path.join(cf.store_backend.location, cf.func_id)
+        for i, (kind, t) in enumerate(c.get("orphans", [])):
+            path = os.path.join(func_dir, "%032x" % (0xabcdef000000 + i))
+            os.makedirs(path)
+            if kind == "meta":
+                with open(os.path.join(path, "metadata.json"), "w") as fh:
+                    fh.write('{"duration": 0.0, "input_args": {"arg": "%d"}}' % i)
+            ts = (BASE + real_datetime.timedelta(seconds=t)).timestamp()
+            os.utime(path, (ts, ts))
+            infos[path] = -(i + 1)
+        # independent inventory of the store (standard library only), taken before get_items: every directory whose
+        # name is 32 hex digits is an entry; its size is the size of its files; its access time is the one of
+        # output.pkl, of the directory itself when there is no output.pkl (read after listing the directory)
+        import re
+        fs_items = []
+        for dirpath, _, filenames in os.walk(mem.store_backend.location):
+            if re.match("[a-f0-9]{32}", os.path.basename(dirpath)):
+                out = os.path.join(dirpath, "output.pkl")
+                at = os.path.getatime(out) if os.path.exists(out) else os.path.getatime(dirpath)
+                at = real_datetime.datetime.fromtimestamp(at)
+                fs_items.append([infos.get(dirpath, 0), sum(os.path.getsize(os.path.join(dirpath, fn)) for fn in filenames),
+                                 int(round((at - BASE).total_seconds()))])
         items = mem.store_backend.get_items()
-        seen = [[infos.get(it.path, -1), it.size, int(round((it.last_access - BASE).total_seconds()))] for it in items]
+        seen = [[infos.get(it.path, 0), it.size, int(round((it.last_access - BASE).total_seconds()))] for it in items]
         al = None if c["al"] is None else real_datetime.timedelta(seconds=c["al"])
         try:
             mem.reduce_size(c["bl"], c["il"], al)
         except Exception as e:  # noqa
-            return dict(canon_exc(e), items=seen)
+            return dict(canon_exc(e), items=seen, fs_items=fs_items)
         survivors = [arg for arg, n, t in c["entries"] if cf.check_call_in_cache(arg, n)]
         dirs_left = sorted(infos[p] for p in infos if os.path.isdir(p))
         # every entry must still give the right value; evicted ones are recomputed
         del calls[:]
         values_ok = all(cf(arg, n) == (arg, payload(n)) for arg, n, t in c["entries"])
         recomputed = sorted(calls)
-        return {"ok": True, "items": seen, "survivors": sorted(survivors), "dirs_left": dirs_left,
+        return {"ok": True, "items": seen, "fs_items": fs_items, "survivors": sorted(survivors), "dirs_left": dirs_left,
                 "values_ok": values_ok, "recomputed": recomputed}
     finally:
         shutil.rmtree(d, ignore_errors=True)
